@@ -873,6 +873,8 @@ RULE_BUILDERS = {
     'DefiniteIntegralIdentity': lambda p: rules.DefiniteIntegralIdentity(),
     'OnSubterm:ReduceLimit': lambda p: rules.OnSubterm(rules.ReduceLimit()),
     'OnSubterm:DerivativeSimplify': lambda p: rules.OnSubterm(rules.DerivativeSimplify()),
+    'DerivIntExchange': lambda p: rules.DerivIntExchange(),
+    'OnSubterm:DerivIntExchange': lambda p: rules.OnSubterm(rules.DerivIntExchange()),     # how app/integral.py applies it
 }
 ATTR_SEEDS = [11, 12, 13, 14, 15, 16, 17, 18]
 FULLSIMP_COMPONENTS = ['Simplify', 'OnSubterm:SimplifyPower', 'OnSubterm:ReduceLimit', 'OnSubterm:Linearity',
@@ -923,6 +925,33 @@ def head_feature(t):
         return 'limit-at-infinity' if t.lim.ty == L.INF else 'finite-limit'
     return {L.INTEGRAL: 'integral', L.SUMMATION: 'sum', L.DERIV: 'deriv', L.EVAL_AT: 'evalat',
             L.INDEFINITEINTEGRAL: 'indef-integral'}.get(t.ty, 'other')
+
+
+def reversed_bounds(t):
+    """The integral t has constant bounds with lower > upper (as SplitRegion with a point outside the interval, or a
+    user, writes them): its value is minus the integral over the ordered interval."""
+    if t.ty != L.INTEGRAL or L.free_vars(t.lower) or L.free_vars(t.upper):
+        return False
+    try:
+        with mp.workdps(30):
+            ev = L.Evaluator()
+            return ev.value_or_inf(t.lower, {}) > ev.value_or_inf(t.upper, {})
+    except Inconc:
+        return False
+
+
+def noninjective_part(g, var):
+    """Which operation makes g non-injective as a function of var (the inverse has several branches)."""
+    names = []
+    for t in L.subterms(g):
+        if t.ty == L.OP and t.op == '^' and len(t.args) == 2 and var in L.free_vars(t.args[0]) and t.args[1].ty == L.CONST:
+            c = Fraction(t.args[1].val)
+            if c.numerator % 2 == 0:
+                return 'even-power'
+        elif t.ty == L.FUN and str(t.func_name) in ('sin', 'cos', 'tan', 'cot', 'sec', 'csc', 'abs', 'cosh') and \
+                any(var in L.free_vars(a) for a in t.args):
+            names.append(str(t.func_name))
+    return names[0] if names else 'other'
 
 
 def _first(e, ty, pred=None):
@@ -980,6 +1009,44 @@ def _rule_changes_value(rname, params, t, ctx, conds):
     return c.compare(t, aft, ATTR_SEEDS).verdict == 'differ'
 
 
+def _ordered(t):
+    """The same term with the bounds of every integral whose constant bounds are in descending order exchanged
+    (built with the public constructors; the value of such an integral changes sign, which does not matter here)."""
+    if t.ty == L.INTEGRAL:
+        lo, hi = (t.upper, t.lower) if reversed_bounds(t) else (t.lower, t.upper)
+        return expr.Integral(t.var, _ordered(lo), _ordered(hi), _ordered(t.body))
+    if t.ty == L.OP:
+        return expr.Op(t.op, *[_ordered(a) for a in t.args])
+    if t.ty == L.FUN:
+        return expr.Fun(t.func_name, *[_ordered(a) for a in t.args])
+    if t.ty == L.LIMIT:
+        return expr.Limit(t.var, _ordered(t.lim), _ordered(t.body), t.drt)
+    if t.ty == L.DERIV:
+        return expr.Deriv(t.var, _ordered(t.body))
+    return t
+
+
+def only_with_reversed_bounds(e, fails):
+    """e (on which `fails` holds) contains an integral with constant bounds in descending order, and `fails` does not
+    hold for the same term with these bounds in ascending order: the order of the bounds is what matters."""
+    if not any(t.ty == L.INTEGRAL and reversed_bounds(t) for t in L.subterms(e)):
+        return False
+    try:
+        return not fails(_ordered(e))
+    except (Inconc, CaseInvalid, Timeout):
+        return False
+    except Exception:
+        return True           # the rule rejects the ordered form
+
+
+def failing_feature(e, fails):
+    """Feature of the smallest sub-term of e on which `fails` still holds."""
+    sub = minimal_failing_subterm(e, fails)
+    if only_with_reversed_bounds(sub, fails):
+        return 'integral-with-reversed-bounds'
+    return head_feature(sub)
+
+
 def _two_sided(t):
     """The same term with the direction of every limit removed (built with the public constructors)."""
     if t.ty == L.LIMIT:
@@ -1016,8 +1083,7 @@ def attribute(rname, e, params, after, env_fr, ctx, conds):
         for variant in (sub, _two_sided(sub)):
             for comp in FULLSIMP_COMPONENTS:
                 if safe(comp, variant):
-                    sub2 = minimal_failing_subterm(variant, lambda t: _rule_changes_value(comp, {}, t, ctx, conds))
-                    return comp.replace('OnSubterm:', ''), head_feature(sub2)
+                    return comp.replace('OnSubterm:', ''), failing_feature(variant, lambda t: _rule_changes_value(comp, {}, t, ctx, conds))
         # no component fails on its own: walk through the pipeline and find the first stage that changes the value
         cur = sub
         for comp in ['OnSubterm:Linearity', 'Simplify', 'OnSubterm:DerivativeSimplify', 'OnSubterm:SimplifyPower',
@@ -1030,8 +1096,7 @@ def attribute(rname, e, params, after, env_fr, ctx, conds):
             if str(nxt) != str(cur):
                 c = Comparator({}, conds or [], {}, int_variables([cur, nxt]), limit_s=2.0)
                 if c.compare(cur, nxt, ATTR_SEEDS).verdict == 'differ':
-                    sub2 = minimal_failing_subterm(cur, lambda t: _rule_changes_value(comp, {}, t, ctx, conds))
-                    return comp.replace('OnSubterm:', ''), head_feature(sub2)
+                    return comp.replace('OnSubterm:', ''), failing_feature(cur, lambda t: _rule_changes_value(comp, {}, t, ctx, conds))
             cur = nxt
         return 'FullSimplify', head_feature(sub)
     return rname.replace('OnSubterm:', ''), feature_of(rname, e, params, after, env_fr, ctx, conds)
@@ -1043,6 +1108,20 @@ def feature_of(rname, e, params, after, env_fr=None, ctx=None, conds=None):
 
     def has(ty):
         return L.contains_ty(e, (ty,))
+    if ctx is not None and rname not in ('Equation', 'ApplyIdentity', 'Simplify', 'FullSimplify', 'ExpandPolynomial',
+                                         'OnSubterm:SimplifyPower', 'SimplifyPower', 'ReduceLimit', 'Linearity', 'OnSubterm:Linearity') and \
+            only_with_reversed_bounds(e, lambda t: _rule_changes_value(rname, params, t, ctx, conds)):
+        return 'integral-with-reversed-bounds'
+    if rname in ('DerivIntExchange', 'OnSubterm:DerivIntExchange'):
+        for t in L.subterms(e):
+            if t.ty == L.INTEGRAL and t.body.ty == L.DERIV:
+                return 'integral-of-derivative'
+            if t.ty == L.DERIV and t.body.ty == L.INTEGRAL:
+                moving = str(t.var) in (L.free_vars(t.body.lower) | L.free_vars(t.body.upper))
+                return 'derivative-of-integral' + ('-with-bounds-depending-on-the-variable' if moving else '')
+            if t.ty in (L.DERIV, L.INDEFINITEINTEGRAL) and t.body.ty in (L.DERIV, L.INDEFINITEINTEGRAL):
+                return 'antiderivative'
+        return 'other'
     if rname == 'Substitution':
         it = _first(e, L.INTEGRAL)
         try:
@@ -1052,6 +1131,8 @@ def feature_of(rname, e, params, after, env_fr=None, ctx=None, conds=None):
                 # a wrong branch of the inverse can only be taken when g is not injective on the whole line
                 wide = monotone_on(g, str(it.var), expr.Const(-7), expr.Const(7), env_fr)
                 m = 'monotone-everywhere' if wide == 'monotone' else 'monotone-on-the-interval-only'
+                if m == 'monotone-on-the-interval-only' and noninjective_part(g, str(it.var)) == 'even-power':
+                    return 'g-even-power-monotone-on-the-interval-only'
             return 'g-' + m
         except Exception:
             return 'g-unknown'
@@ -1134,12 +1215,23 @@ def feature_of(rname, e, params, after, env_fr=None, ctx=None, conds=None):
         return 'limit-form' if L.contains_ty(after, (L.LIMIT,)) else 'plain'
     if rname in ('Simplify', 'FullSimplify', 'ExpandPolynomial', 'OnSubterm:SimplifyPower', 'SimplifyPower', 'ReduceLimit',
                  'Linearity', 'OnSubterm:Linearity') and ctx is not None:
-        return head_feature(minimal_failing_subterm(e, lambda t: _rule_changes_value(rname, params, t, ctx, conds)))
+        return failing_feature(e, lambda t: _rule_changes_value(rname, params, t, ctx, conds))
     if rname == 'Equation':
         try:
             old = P(params['old_expr']) if params.get('old_expr') else e
         except CaseInvalid:
             old = e
+        try:
+            # both sides are sums / differences of definite integrals (and other terms): do the integrals range over
+            # one and the same interval?
+            terms = sum_terms(old) + sum_terms(P(params.get('new_expr', '0')))
+            ints = [t for t in terms if t.ty == L.INTEGRAL]
+            if len(ints) >= 2 and len(terms) >= 3:
+                # (a term c that is not an integral counts as INT x:[0,1]. c, which is how the rule itself reads it)
+                if len(set((str(t.lower), str(t.upper)) if t.ty == L.INTEGRAL else ('0', '1') for t in terms)) > 1:
+                    return 'sum-of-integrals-over-different-intervals'
+        except CaseInvalid:
+            pass
         big = old if old.size() >= 2 else P(params.get('new_expr', 'x'))
         feats = [head_feature(t) for t in L.subterms(big) if t.ty in (L.OP, L.FUN)]
         for f in ('power-of-power', 'rational-power', 'symbolic-power', 'sqrt', 'abs', 'log', 'exp', 'atan'):
@@ -1149,6 +1241,15 @@ def feature_of(rname, e, params, after, env_fr=None, ctx=None, conds=None):
     if rname == 'ReduceLimit':
         return 'at-infinity' if 'oo' in str(getattr(e, 'lim', '')) else 'finite'
     return 'any'
+
+
+def sum_terms(t):
+    """The summands of a sum / difference (signs dropped)."""
+    if t.ty == L.OP and t.op in ('+', '-') and len(t.args) == 2:
+        return sum_terms(t.args[0]) + sum_terms(t.args[1])
+    if t.ty == L.OP and len(t.args) == 1:
+        return sum_terms(t.args[0])
+    return [t]
 
 
 def bound_only_vars(e):
@@ -1479,9 +1580,8 @@ def run_normalize_case(case, H, limit_s=5.0):
         return
     check_roundtrip(n1, H, case, 'result-of-normalize')
     if n1 != n2:
-        H.violation('normalize:not-idempotent:%s' % ('repeated-base-in-product' if has_repeated_base(n1) else head_feature(
-            minimal_failing_subterm(e, lambda t: poly.normalize(poly.normalize(copy.deepcopy(t), cd), cd) !=
-                                    poly.normalize(copy.deepcopy(t), cd)))), case,
+        H.violation('normalize:not-idempotent:%s' % ('repeated-base-in-product' if has_repeated_base(n1) else failing_feature(
+            e, lambda t: poly.normalize(poly.normalize(copy.deepcopy(t), cd), cd) != poly.normalize(copy.deepcopy(t), cd))), case,
                     'normalize(%s) = %s but normalizing again gives %s' % (e, n1, n2))
     cmpo = Comparator({}, conds, {}, int_variables([e] + conds), limit_s=limit_s)
     res = cmpo.compare(e, n1, seeds, explicit_draws=case.get('draws'))
@@ -1599,6 +1699,33 @@ def run_bounds_case(case, H):
 BOUNDS = [('0', '1'), ('-1', '1'), ('0', 'pi'), ('0', 'pi / 2'), ('1', '2'), ('0', 'oo'), ('-oo', 'oo'), ('1/2', '3'),
           ('-1', '2'), ('1', 'oo'), ('-2', '-1'), ('-oo', '0'), ('0', '2'), ('-pi / 2', 'pi / 2'), ('1', '4')]
 FINITE_BOUNDS = [b for b in BOUNDS if 'oo' not in b[0] and 'oo' not in b[1]]
+# constant bounds in descending order: what SplitRegion returns for a point outside the interval
+# (INT x:[0,1]. f  ->  (INT x:[0,-1]. f) + (INT x:[-1,1]. f)), and what a user may type
+REVERSED_BOUNDS = [('0', '-1'), ('1', '0'), ('2', '1'), ('-1', '-2'), ('1', '-1'), ('pi', '0'), ('2', '-1'), ('3', '1/2'),
+                   ('1', '-2'), ('0', '-2'), ('-1/2', '-2')]
+# intervals that reach into the negative numbers, in both orders
+NEG_BOUNDS = [('0', '-1'), ('1', '-2'), ('-1', '-2'), ('1', '-1'), ('0', '-2'), ('-1/2', '-2'), ('2', '-1'), ('-1', '0'), ('-2', '1'),
+              ('-2', '-1'), ('-1', '2')]
+# Substitution u = g(x) where g is monotone on the interval without being injective on the line, paired with
+# integrands from which x cannot be eliminated by dividing through g': the rule has to invert g on the right branch
+BRANCH_G = ['x ^ 2', 'x ^ 2', 'x ^ 4', 'x ^ 2 + 1', 'x ^ 2 - 1', '(x - 1) ^ 2', '1 / x ^ 2', 'sin(x)', 'cos(x)', 'tan(x)',
+            'x ^ 2 / 2', '1 - x ^ 2', 'x ^ 6', 'abs(x)']
+BRANCH_BOUNDS = [('-2', '-1'), ('-2', '-1'), ('-3', '-1/2'), ('-1', '0'), ('-oo', '-1'), ('-1', '-1/2'), ('2', '3'), ('2', '4'),
+                 ('4', '6'), ('-3', '-2'), ('1', '2'), ('0', '1'), ('-1/2', '0'), ('-4', '-2')]
+BRANCH_F = ['x ^ 4', 'x ^ 2', '1', 'x', 'x ^ 3', 'exp(x ^ 2)', 'cos(x)', 'exp(x)', '1 / x ^ 2', 'abs(x)', 'x * sin(x)', 'x + 1',
+            '1 / (1 + x ^ 2)', 'exp(-x ^ 2)', 'x ^ 2 + a', 'sqrt(x ^ 2 + 1)']
+# f(x, a) for exchanging D a. and INT x.
+DI_F = ['exp(a * x)', 'sin(a * x)', 'x ^ a', 'log(1 + a * x)', 'a * x ^ 2', '1 / (x ^ 2 + a ^ 2)', 'exp(-a * x ^ 2)', 'atan(a * x)',
+        'cos(x) / (a + x)', 'a ^ 2 * x + a', 'x / (1 + a * x)', 'exp(-a * x) * x', 'sqrt(a + x)', 'a', 'x', 'cos(a) * x ^ 2',
+        'log(a ^ 2 + x ^ 2)', 'exp(-x) * sin(a * x)']
+DI_BOUNDS = [('0', '1'), ('1', '2'), ('0', '2'), ('1/2', '3'), ('0', 'pi'), ('1', '4'), ('0', 'oo'), ('1', 'oo'), ('2', '1'),
+             ('0', 'a'), ('a', '1'), ('0', 'a ^ 2'), ('a', '2 * a'), ('b', '1'), ('0', 'b')]
+# integrable pieces for Equation between sums of definite integrals
+EQ_INT_F = ['x', 'x ^ 2', 'exp(x)', 'sin(x)', '1', 'a', 'cos(x)', '1 / (1 + x ^ 2)', 'a * x', '2 * x', 'x ^ 3', 'exp(-x)']
+LIM_NEG_INF = ['exp(x)', '1 / x', 'atan(x)', 'x * exp(x)', '(2 * x ^ 2 + 1) / (x ^ 2 + x)', 'x / sqrt(x ^ 2 + 1)', 'tanh(x)',
+               '1 / (1 + exp(-x))', 'exp(x) + 3', '(x + 1) / (2 * x - 1)', 'sin(x) / x', '1 / x + a', '(3 * x + 2) / (x ^ 2 + 1)',
+               'exp(a * x)', '1 / x ^ 2', 'atan(x) / x', 'x ^ 2 * exp(x)', 'sqrt(x ^ 2 + x) + x', '2 * atan(x) - 1 / x',
+               '(1 + 1 / x) ^ x', 'exp(1 / x)', 'x / abs(x)', 'x * sin(1 / x)', '-exp(x) + 1']
 DECAY = ['exp(-x)', 'exp(-x ^ 2)', '1 / (1 + x ^ 2)', 'x * exp(-x)', 'exp(-2 * x) * cos(x)', '1 / (x ^ 2 + 4)',
          'x ^ 2 * exp(-x)', '1 / (1 + x ^ 2) ^ 2', 'exp(-x) * sin(x)', '1 / (1 + x) ^ 2', 'exp(-abs(x))']
 G_POOL = [('x ^ 2', '2 * x'), ('x + 1', '1'), ('2 * x', '2'), ('sin(x)', 'cos(x)'), ('cos(x)', '-sin(x)'),
@@ -1655,8 +1782,11 @@ SPECIAL_FORMS = ['exp(1/2 * log(x ^ 2))', 'exp(log(x ^ 4) / 4)', 'log(x ^ 2)', '
                  'acot(tan(x))', 'atan(1 / x) + atan(x)', 'asin(x) + acos(x)', '0 ^ x', 'x ^ 0', '1 ^ x', '(-1) ^ (2 * x)',
                  '(-8) ^ (1/3)', '(x ^ 2) ^ (1/4)', '((-x) ^ 2) ^ (1/2)', 'sqrt(a ^ 2) * x', 'exp(x) ^ a', 'exp(2 * log(abs(x)))']
 COND_POOL = ['x > 0', 'a > 0', 'x < 1', 'x > -1', 'a < 0', 'x > 1', 'x < 0', 'a > 1', 'b > 0', 'a != 0', 'x != 0']
+POS_RANGES = [('1/4', '1/2'), ('1/4', '3/4'), ('1/2', '1'), ('1', '2'), ('1/3', '3'), ('1/2', None), ('1', '3'), ('1/2', '2'),
+              ('2', '5'), ('1/8', '1/4'), ('1', None), ('3/2', '2')]
 RANGES = [('-2', '-1'), ('-1', '2'), ('0', '1'), ('1', '3'), ('0', None), (None, '0'), ('-1', None), ('-3', '3'),
-          ('1/2', '2'), (None, '-1'), ('-1', '1'), ('2', '5'), ('-1/2', '1/2'), ('0', 'pi'), ('-pi', 'pi'), ('0', '4')]
+          ('1/2', '2'), (None, '-1'), ('-1', '1'), ('2', '5'), ('-1/2', '1/2'), ('0', 'pi'), ('-pi', 'pi'), ('0', '4'),
+          ('1/4', '1/2'), ('1/4', '3/4'), ('1/2', '1'), ('1', '2'), ('1/3', '3'), ('1/2', None)]
 
 
 def strategies():
@@ -1664,13 +1794,13 @@ def strategies():
     S = {}
     seeds = st.lists(st.integers(0, 2 ** 20), min_size=3, max_size=3)
 
-    def pointwise(var='x', params=('a',), leaves=6, funs=('sin', 'cos', 'exp', 'log', 'sqrt', 'atan', 'abs', 'tan')):
+    def pointwise(var='x', params=('a',), leaves=6, funs=('sin', 'cos', 'exp', 'log', 'sqrt', 'atan', 'abs', 'tan'), exps=()):
         base = st.sampled_from([var, var, var] + list(params) + ['1', '2', '3', '1/2', 'pi', '-1', '-2', '1/3'])
 
         def ext(ch):
             return st.one_of(
                 st.tuples(st.sampled_from(['+', '-', '*', '/', '+', '*']), ch, ch).map(lambda t: '(%s) %s (%s)' % (t[1], t[0], t[2])),
-                st.tuples(ch, st.sampled_from(['2', '3', '-1', '1/2', '-2', 'a', '1/3', '-1/2', '4', '3/2'])).map(
+                st.tuples(ch, st.sampled_from(['2', '3', '-1', '1/2', '-2', 'a', '1/3', '-1/2', '4', '3/2'] + list(exps))).map(
                     lambda t: '(%s) ^ (%s)' % t),
                 st.tuples(st.sampled_from(list(funs)), ch).map(lambda t: '%s(%s)' % t),
                 ch.map(lambda c: '-(%s)' % c))
@@ -1689,6 +1819,9 @@ def strategies():
     conds = st.lists(st.sampled_from(COND_POOL), max_size=2, unique=True)
     bounds = st.sampled_from(BOUNDS)
     fbounds = st.sampled_from(FINITE_BOUNDS)
+    rbounds = st.sampled_from(REVERSED_BOUNDS)
+    bounds_r = st.one_of(bounds, bounds, bounds, bounds, rbounds)          # one in five in descending order
+    fbounds_r = st.one_of(fbounds, fbounds, fbounds, rbounds)
 
     def integral_of(body, bnd):
         return st.tuples(body, bnd).map(lambda t: 'INT x:[%s,%s]. %s' % (t[1][0], t[1][1], t[0]))
@@ -1701,22 +1834,24 @@ def strategies():
             return draw(pointwise())
         if shape == 'const':
             # constants built from irrational atoms with (negative, fractional) powers: the coefficient normal form
-            atoms = st.sampled_from(['pi', 'pi', 'log(2)', 'sin(1)', 'sqrt(2)', 'exp(1)', 'exp(2)', '2', '3', 'atan(2)', 'sqrt(3)'])
+            atoms = st.sampled_from(['pi', 'pi', 'log(2)', 'sin(1)', 'sqrt(2)', 'exp(1)', 'exp(2)', '2', '3', 'atan(2)', 'sqrt(3)',
+                                     'exp(pi)', 'exp(sqrt(2))', 'exp(log(3) + 1)', 'exp(-1/2)'])
             pw = st.sampled_from(['-3', '-2', '-2', '-3/2', '-1', '-1/2', '1/2', '2', '3', '1/3', '-1/3', '-5/2'])
             fac = st.one_of(atoms, st.tuples(atoms, pw).map(lambda t: '%s ^ (%s)' % t), st.tuples(atoms, pw).map(lambda t: '%s ^ (%s)' % t))
             prod = st.lists(st.tuples(st.sampled_from(['*', '*', '/']), fac), min_size=1, max_size=4).map(
                 lambda fs: '1' + ''.join(' %s (%s)' % f for f in fs))
             c = draw(prod)
             wrap = draw(st.sampled_from(['%s', '%s', '(%s) * x', 'x / (%s)', '(%s) + (%s)', '(%s) - 1 / pi ^ 2', 'INT x:[0,1]. (%s) * x',
-                                         '(%s) * a + x', 'sqrt(%s)']))
+                                         '(%s) * a + x', 'sqrt(%s)', 'log(%s)', 'log(%s)', 'log(%s) * x + 1', 'exp(%s)', 'log(2 * (%s))',
+                                         'sin(%s)', 'log(1 / (%s))']))
             return wrap % ((c,) * wrap.count('%s'))
         if shape == 'special':
             sp = draw(st.sampled_from(SPECIAL_FORMS))
             wrap = draw(st.sampled_from(['%s', '%s', '(%s) + x', '2 * (%s)', '(%s) * a', 'INT x:[-2,-1]. %s', 'INT x:[1/2,2]. %s',
-                                         '(%s) - abs(x)', 'cos(%s)']))
+                                         '(%s) - abs(x)', 'cos(%s)', 'INT x:[-1,-2]. %s', 'INT x:[2,1/2]. %s', 'INT x:[0,-1]. %s']))
             return wrap % sp
         if shape == 'int':
-            return draw(integral_of(pointwise(leaves=4), fbounds))
+            return draw(integral_of(pointwise(leaves=4), fbounds_r))
         if shape == 'int-inf':
             b = draw(st.sampled_from([('0', 'oo'), ('-oo', 'oo'), ('1', 'oo'), ('-oo', '0')]))
             f = draw(st.sampled_from(DECAY))
@@ -1728,7 +1863,7 @@ def strategies():
             return 'SUM(n, 0, oo, %s)' % t
         if shape == 'lim':
             return 'LIM {x -> oo}. %s' % draw(st.sampled_from(LIM_INF))
-        inner = draw(integral_of(pointwise(leaves=3), fbounds))
+        inner = draw(integral_of(pointwise(leaves=3), fbounds_r))
         return '(%s) * (%s) + (%s)' % (draw(st.sampled_from(['a', '2', '1/2', '-1'])), inner, draw(pointwise(var='a', params=(), leaves=2)))
 
     @st.composite
@@ -1747,7 +1882,7 @@ def strategies():
         f1, f2 = draw(pointwise(leaves=3)), draw(pointwise(leaves=3))
         c1, c2 = draw(st.sampled_from(['a', '2', '1/2', '-1', 'pi', 'a ^ 2', '(a + 1)', 'b'])), draw(st.sampled_from(['a', '3', '-2', 'b']))
         shape = draw(st.sampled_from(['sum', 'diff', 'prod', 'quot', 'neg', 'const', 'lim', 'series', 'indef']))
-        b = draw(fbounds)
+        b = draw(fbounds_r)
         body = {'sum': '%s * (%s) + %s * (%s)' % (c1, f1, c2, f2), 'diff': '(%s) / %s - %s * (%s)' % (f1, c1, c2, f2),
                 'prod': '%s * (%s) * %s' % (c1, f1, c2), 'quot': '%s / (%s * (%s))' % (c1, c2, f1), 'neg': '-(%s * (%s))' % (c1, f1),
                 'const': '%s' % c1}.get(shape)
@@ -1768,14 +1903,20 @@ def strategies():
         g, dg = draw(st.sampled_from(G_POOL))
         h = draw(st.sampled_from(H_POOL))
         hg = h.replace('u', '(%s)' % g)
-        shape = draw(st.sampled_from(['chain', 'chain', 'chain', 'bare', 'random']))
+        shape = draw(st.sampled_from(['chain', 'chain', 'chain', 'bare', 'random', 'branch', 'branch']))
+        b = draw(bounds_r)
         if shape == 'chain':
             body = '(%s) * (%s)' % (hg, dg)
         elif shape == 'bare':
             body = hg
+        elif shape == 'branch':
+            g = draw(st.sampled_from(BRANCH_G))
+            b = draw(st.sampled_from(BRANCH_BOUNDS))
+            body = draw(st.sampled_from(BRANCH_F))
+            if draw(st.integers(0, 3)) == 0:
+                body = '(%s) * (%s)' % (body, draw(st.sampled_from(H_POOL)).replace('u', '(%s)' % g))
         else:
             body = draw(pointwise(leaves=4))
-        b = draw(bounds)
         return {'kind': 'rule', 'rule': 'Substitution', 'e': 'INT x:[%s,%s]. %s' % (b[0], b[1], body),
                 'params': {'var_name': 'u', 'var_subst': g}, 'conds': draw(st.lists(st.sampled_from(['a > 0', 'a < 0', 'a != 0']), max_size=1)),
                 'seeds': draw(seeds)}
@@ -1788,7 +1929,7 @@ def strategies():
             ['sqrt(1 - x ^ 2)', '1 / (1 + x ^ 2)', '1 / sqrt(1 - x ^ 2)', 'x * sqrt(x + 1)', 'exp(sqrt(x))', '1 / (x * (1 + x))',
              'sqrt(4 - x ^ 2)', '1 / (1 + sqrt(x))', 'log(x) / x', 'x ^ 2', '1 / x ^ 2', 'exp(-x)', '1', 'x', 'cos(x)',
              '1 / (1 + x ^ 2)', 'exp(-x ^ 2)'])))
-        b = draw(bounds)
+        b = draw(bounds_r)
         return {'kind': 'rule', 'rule': 'SubstitutionInverse', 'e': 'INT x:[%s,%s]. %s' % (b[0], b[1], body),
                 'params': {'var_name': 'u', 'var_subst': g}, 'conds': draw(st.lists(st.sampled_from(['a > 0', 'a < 0']), max_size=1)),
                 'seeds': draw(seeds)}
@@ -1798,7 +1939,7 @@ def strategies():
     def c_parts(draw):
         v, dv = draw(st.sampled_from(UV_POOL_V))
         u = draw(st.sampled_from(UV_POOL_U))
-        b = draw(bounds)
+        b = draw(bounds_r)
         indef = draw(st.integers(0, 9)) == 0
         body = '(%s) * (%s)' % (u, dv)
         e = ('INT x. %s' % body) if indef else 'INT x:[%s,%s]. %s' % (b[0], b[1], body)
@@ -1809,7 +1950,7 @@ def strategies():
     @st.composite
     def c_split(draw):
         f = draw(st.one_of(st.sampled_from(SPLIT_F), pointwise(leaves=3)))
-        b = draw(bounds)
+        b = draw(bounds_r)
         return {'kind': 'rule', 'rule': 'SplitRegion', 'e': 'INT x:[%s,%s]. %s' % (b[0], b[1], f),
                 'params': {'c': draw(st.sampled_from(SPLIT_C))}, 'conds': draw(st.lists(st.sampled_from(['a > 0', 'a < 1', 'a > 1']), max_size=2, unique=True)),
                 'seeds': draw(seeds)}
@@ -1819,7 +1960,7 @@ def strategies():
     def c_expand(draw):
         p = draw(polyish())
         if draw(st.booleans()):
-            b = draw(fbounds)
+            b = draw(fbounds_r)
             p = 'INT x:[%s,%s]. %s' % (b[0], b[1], p)
         return {'kind': 'rule', 'rule': 'ExpandPolynomial', 'e': p, 'params': {}, 'conds': draw(conds), 'seeds': draw(seeds)}
     S['ExpandPolynomial'] = c_expand()
@@ -1844,8 +1985,33 @@ def strategies():
 
     @st.composite
     def c_equation(draw):
-        shape = draw(st.sampled_from(['pair', 'pair', 'pair-rev', 'random', 'perturb', 'trivial']))
+        shape = draw(st.sampled_from(['pair', 'pair', 'pair-rev', 'random', 'perturb', 'trivial', 'int-sum']))
         cs = draw(conds)
+        if shape == 'int-sum':
+            # an integral against a sum / difference of integrals (over the same or over another interval, in the same or
+            # in another variable) and free-standing terms
+            f, g = draw(st.sampled_from(EQ_INT_F)), draw(st.sampled_from(EQ_INT_F))
+            b1 = draw(fbounds)
+            b2 = draw(st.one_of(st.just(b1), fbounds))
+            op = draw(st.sampled_from(['+', '+', '-']))
+            v2 = draw(st.sampled_from(['x', 'x', 't']))
+            whole = 'INT x:[%s,%s]. (%s) %s (%s)' % (b1[0], b1[1], f, op, g)
+            form = draw(st.sampled_from(['ints', 'ints', 'ints', 'double', 'free-term']))
+            if form == 'double':
+                whole = 'INT x:[%s,%s]. 2 * (%s)' % (b1[0], b1[1], f)
+                g, op = f, '+'
+            second = 'INT %s:[%s,%s]. %s' % (v2, b2[0], b2[1], re.sub(r'\bx\b', v2, g))
+            if form == 'free-term':
+                c = draw(st.sampled_from(['a', '2', '1/2', 'pi']))
+                whole = 'INT x:[%s,%s]. (%s) %s %s' % (b1[0], b1[1], f, op, c)
+                second = c
+            parts = '(INT x:[%s,%s]. %s) %s (%s)' % (b1[0], b1[1], f, op, second)
+            old, new = (whole, parts) if draw(st.booleans()) else (parts, whole)
+            cs = [c for c in cs if not c.startswith('x ')]
+            if draw(st.integers(0, 3)) == 0:
+                return {'kind': 'rule', 'rule': 'Equation', 'e': '(%s) * a + 1' % old, 'params': {'old_expr': old, 'new_expr': new},
+                        'conds': cs, 'seeds': draw(seeds)}
+            return {'kind': 'rule', 'rule': 'Equation', 'e': old, 'params': {'new_expr': new}, 'conds': cs, 'seeds': draw(seeds)}
         if shape in ('pair', 'pair-rev'):
             a, b = draw(st.sampled_from(EQ_PAIRS))
             if shape == 'pair-rev':
@@ -1853,7 +2019,7 @@ def strategies():
             wrap = draw(st.sampled_from(['none', 'none', 'int', 'int2', 'lim']))
             if wrap == 'none':
                 return {'kind': 'rule', 'rule': 'Equation', 'e': a, 'params': {'new_expr': b}, 'conds': cs, 'seeds': draw(seeds)}
-            bnd = draw(fbounds)
+            bnd = draw(fbounds_r)
             e = {'int': 'INT x:[%s,%s]. %s' % (bnd[0], bnd[1], a), 'int2': 'INT x:[%s,%s]. (%s) * cos(x)' % (bnd[0], bnd[1], a),
                  'lim': 'LIM {x -> oo}. (%s) / (1 + x ^ 2)' % a}[wrap]
             return {'kind': 'rule', 'rule': 'Equation', 'e': e, 'params': {'old_expr': a, 'new_expr': b}, 'conds': cs, 'seeds': draw(seeds)}
@@ -1929,6 +2095,24 @@ def strategies():
     S['DerivativeSimplify'] = c_derivsimp()
 
     @st.composite
+    def c_derivint(draw):
+        f = draw(st.one_of(st.sampled_from(DI_F), st.sampled_from(DI_F), pointwise(leaves=3)))
+        b = draw(st.sampled_from(DI_BOUNDS))
+        shape = draw(st.sampled_from(['int-of-deriv', 'int-of-deriv', 'deriv-of-int', 'deriv-of-int', 'indef-of-deriv', 'deriv-of-indef']))
+        e = {'int-of-deriv': 'INT x:[%s,%s]. D a. %s', 'deriv-of-int': 'D a. INT x:[%s,%s]. %s'}.get(shape)
+        if e is not None:
+            e = e % (b[0], b[1], f)
+        else:
+            e = ('INT x. D a. %s' if shape == 'indef-of-deriv' else 'D a. INT x. %s') % f
+        rname = 'DerivIntExchange'
+        if draw(st.integers(0, 2)) == 0:
+            e = draw(st.sampled_from(['2 * (%s) + a', '(%s) / a', '-(%s)'])) % e
+            rname = 'OnSubterm:DerivIntExchange'
+        cs = draw(st.lists(st.sampled_from(['a > 0', 'a > 0', 'a > 1', 'b > 0']), min_size=1, max_size=2, unique=True))
+        return {'kind': 'rule', 'rule': rname, 'e': e, 'params': {}, 'conds': cs, 'seeds': draw(seeds)}
+    S['DerivIntExchange'] = c_derivint()
+
+    @st.composite
     def c_simppow(draw):
         p = draw(st.sampled_from(['2', '2', '4', '-2', '3', '1/2', 'a', 'n', '2 * n', '1/3', '-1', '6']))
         q = draw(st.sampled_from(['1/2', '1/2', '3/2', '1/4', '-1/2', '1/3', '2', '3', 'a', '-1', 'n', '1/6']))
@@ -1938,17 +2122,35 @@ def strategies():
                                   '%(c)s ^ (x + (%(p)s))', '%(c)s ^ (x - (%(p)s))',
                                   '(-%(b)s) ^ (%(p)s)', '(-%(b)s - a) ^ (%(p)s)', 'exp((%(p)s) * log(%(b)s))',
                                   '(%(b)s ^ (%(p)s)) ^ (%(q)s) + %(b)s', 'INT x:[-1,2]. (%(b)s ^ (%(p)s)) ^ (%(q)s)',
+                                  'INT x:[0,-1]. (%(b)s ^ (%(p)s)) ^ (%(q)s)', 'INT x:[1,-2]. (1 / %(b)s ^ (%(p)s)) ^ (%(q)s)',
                                   'sqrt((%(b)s ^ (%(p)s)) ^ (%(q)s))', '((%(b)s ^ (%(p)s)) ^ (%(q)s)) ^ (%(p)s)'])) % \
             {'b': base, 'p': p, 'q': q, 'c': c}
-        return {'kind': 'rule', 'rule': draw(st.sampled_from(['OnSubterm:SimplifyPower', 'SimplifyPower', 'FullSimplify'])), 'e': e, 'params': {},
-                'conds': draw(conds), 'seeds': draw(seeds)}
+        rname = draw(st.sampled_from(['OnSubterm:SimplifyPower', 'SimplifyPower', 'FullSimplify']))
+        focus = draw(st.integers(0, 5))
+        if focus == 0:
+            # an even power under a fractional one: x ^ (p * q) differs from (x ^ p) ^ q exactly where x < 0
+            e = '(%s ^ (%s)) ^ (%s)' % (draw(st.sampled_from(['x', 'x', '(x - 1)', '(-x)', '(x + 1)'])), draw(st.sampled_from(['2', '2', '4', '6', '-2'])),
+                                        draw(st.sampled_from(['1/2', '1/2', '3/2', '1/4', '1/6', '-1/2'])))
+            e = draw(st.sampled_from(['%s', '%s', '(%s) * x', '1 / (%s)', '(%s) + a'])) % e
+            b = draw(st.sampled_from(NEG_BOUNDS))
+            e = 'INT x:[%s,%s]. %s' % (b[0], b[1], e)
+            rname = draw(st.sampled_from(['OnSubterm:SimplifyPower', 'OnSubterm:SimplifyPower', 'FullSimplify']))
+        if focus <= 1 and not e.startswith('INT'):
+            # under an integral over a generated interval with ascending or descending bounds
+            b = draw(st.one_of(fbounds, rbounds))
+            e = 'INT x:[%s,%s]. %s' % (b[0], b[1], e)
+        if e.startswith('INT') and rname == 'SimplifyPower':
+            rname = 'OnSubterm:SimplifyPower'          # the plain rule only looks at the root
+        return {'kind': 'rule', 'rule': rname, 'e': e, 'params': {}, 'conds': draw(conds), 'seeds': draw(seeds)}
     S['SimplifyPower'] = c_simppow()
 
     @st.composite
     def c_redlim(draw):
-        shape = draw(st.sampled_from(['inf', 'inf', 'finite', 'sum']))
+        shape = draw(st.sampled_from(['inf', 'inf', 'finite', 'sum', 'neg-inf']))
         if shape == 'inf':
             e = 'LIM {x -> oo}. %s' % draw(st.sampled_from(LIM_INF))
+        elif shape == 'neg-inf':
+            e = 'LIM {x -> -oo}. %s' % draw(st.sampled_from(LIM_NEG_INF))
         elif shape == 'sum':
             e = 'LIM {x -> oo}. (%s) %s (%s)' % (draw(st.sampled_from(LIM_INF)), draw(st.sampled_from(['+', '-', '*', '/'])), draw(st.sampled_from(LIM_INF)))
         else:
@@ -1971,7 +2173,19 @@ def strategies():
                 cs.append('%s %s %s' % (v, draw(st.sampled_from(['>', '>='])), lo))
             if hi is not None:
                 cs.append('%s %s %s' % (v, draw(st.sampled_from(['<', '<='])), hi))
-        e = draw(pointwise(params=tuple(vs[1:]) or ('2',), leaves=5, funs=('sin', 'cos', 'exp', 'log', 'sqrt', 'abs', 'atan')))
+        e = draw(pointwise(params=tuple(vs[1:]) or ('2',), leaves=5, funs=('sin', 'cos', 'exp', 'log', 'sqrt', 'abs', 'atan'),
+                           exps=tuple(vs[1:]) * 3 + ('x',)))
+        if draw(st.integers(0, 4)) == 0:
+            # a power whose base and exponent both range over intervals of positive numbers
+            cs = []
+            for v in ('x', 'y'):
+                lo, hi = draw(st.sampled_from(POS_RANGES))
+                cs.append('%s %s %s' % (v, draw(st.sampled_from(['>', '>='])), lo))
+                if hi is not None:
+                    cs.append('%s %s %s' % (v, draw(st.sampled_from(['<', '<='])), hi))
+            e = draw(st.sampled_from(['x ^ y', 'x ^ y', '(x ^ y) * 2', 'x ^ y + x', 'log(x ^ y)', '(1/2) ^ y', 'x ^ (y + 1)', '(x + 1/4) ^ y',
+                                      'sqrt(x) ^ y', '1 / x ^ y', 'x ^ (2 * y)', '(x * y) ^ y', 'x ^ y - y ^ x', 'exp(x ^ y)', '(x / 2) ^ (y / 2)',
+                                      '2 ^ y', 'x ^ x']))
         return {'kind': 'bounds', 'e': e, 'conds': cs, 'seeds': draw(st.lists(st.integers(0, 2 ** 20), min_size=6, max_size=6))}
     S['bounds'] = c_bounds()
 
@@ -2005,9 +2219,9 @@ def strategies():
     return S
 
 
-QUICK_N = {'Simplify': 120, 'FullSimplify': 120, 'normalize': 120, 'Linearity': 90, 'Substitution': 180, 'SubstitutionInverse': 120,
+QUICK_N = {'DerivIntExchange': 80, 'Simplify': 120, 'FullSimplify': 120, 'normalize': 120, 'Linearity': 90, 'Substitution': 180, 'SubstitutionInverse': 120,
            'IntegrationByParts': 120, 'SplitRegion': 100, 'ExpandPolynomial': 90, 'Equation': 200, 'ApplyIdentity': 150,
-           'ElimInfInterval': 80, 'LHopital': 100, 'deriv': 120, 'DerivativeSimplify': 90, 'SimplifyPower': 150, 'ReduceLimit': 150,
+           'ElimInfInterval': 80, 'LHopital': 100, 'deriv': 120, 'DerivativeSimplify': 90, 'SimplifyPower': 240, 'ReduceLimit': 150,
            'bounds': 300, 'roundtrip': 600}
 
 
@@ -2102,7 +2316,8 @@ def shards(tier):
     mult = 1 if tier == 'quick' else 40
     for gname in sorted(QUICK_N):
         n = QUICK_N[gname] * mult
-        k = max(1, -(-n // (40 if gname not in ('roundtrip', 'bounds') else 150))) if tier == 'quick' else 32
+        per = {'roundtrip': 150, 'bounds': 150, 'DerivIntExchange': 20}.get(gname, 40)
+        k = max(1, -(-n // per)) if tier == 'quick' else 32
         for i, m in enumerate(harness.split(n, k)):
             out.append({'kind': 'gen', 'gen': gname, 'n': m, 'i': i})
     # every identity of the base book, with a correct and (every 4th) a perturbed target
